@@ -264,7 +264,16 @@ pub fn run_base(idx: u64, base: &Value, out: &mut Out) -> (u64, u64) {
         if each {
             eprintln!("EACH {}", digest(b).iter().map(|x| format!("{:02x}", x)).collect::<String>());
         }
-        execute(b, init_reader.as_ref())
+        let mut o = execute(b, init_reader.as_ref());
+        // wall-clock guard: only an execution that is slow three times in a row counts (a loaded
+        // machine must not raise an alarm)
+        if o.ms > 3000 {
+            for _ in 0..2 {
+                let again = execute(b, init_reader.as_ref());
+                o.ms = o.ms.min(again.ms);
+            }
+        }
+        o
     };
     // the unmodified input
     blk.last_input = bytes.clone(); blk.add(run(&bytes), json!("unmodified"));
